@@ -7,7 +7,9 @@ REQUIRED = ['Petl.C10.' + n for n in (
     'duplicates_eq_groups unique_eq_groups duplicates_unique_partition mem_duplicates_iff mem_unique_iff '
     'distinct_first_of_each_group distinct_count_sum_nrows conflicts_sublist_duplicates isunique_iff').split()]
 
-CELLS = [None, 1, 1.0, True, 2, 'a', 'b', (1, 'a'), 2.5]
+CELLS = [None, 1, 1.0, True, 2, 'a', 'b', (1, 'a'), 2.5, -1, -2]
+# distinct values with equal hashes in CPython: membership must be by equality, not by hash
+COLLIDING = [[-1, -2], [0, 2 ** 61 - 1], [(-1, 'a'), (-2, 'a')], [-1, -2, -1]]
 
 
 def keyfun(T, key):
@@ -40,11 +42,19 @@ def run(ctx):
     rng = ctx.rng
     n = 2500 if ctx.thorough() else 400
     jobs = []
-    for ci in range(n):
+    for ci in range(n + 2 * len(COLLIDING)):
         hdr = gen.header(rng, n=rng.choice([1, 2, 2, 3]))
         pool = rng.sample(CELLS, rng.choice([2, 3, 4]))
         T = gen.table(rng, hdr, default_pool=pool, maxn=7, ragged=0.03)
         key = util.rand_key(rng, hdr, allow_none=True)
+        if ci >= n:
+            vals = COLLIDING[(ci - n) // 2]
+            if (ci - n) % 2 == 0:
+                hdr, key = ['k', 'v'], 'k'
+                T = [hdr] + [[v, i] for i, v in enumerate(vals)]
+            else:
+                hdr, key = ['k', 'j', 'v'], ('k', 'j')
+                T = [hdr] + [[v, 'x', i] for i, v in enumerate(vals)]
         bs = rng.choice([None, None, 1, 2, 3])
         tt = proto.enc_table(T)
         kt = util.enc_key(key)
